@@ -168,7 +168,7 @@ class AsmPasses:
         this = env.hole_int("this", 0, 19999)
         target = env.hole_int("target", 0, 19999)
         p.assume(And(this < n, target < n))
-        p.assume((this < target) if direction == "fwd" else (target < this))
+        p.assume((this < target) if direction == "fwd" else (target <= this))          # backward includes the branch to its own statement
         SIZE = z3.Array("h_sizes", z3.IntSort(), z3.IntSort())
         PS = z3.Array("PS", z3.IntSort(), z3.IntSort())
         env.hole_terms["sizes"] = ("arr", SIZE, n.e)
